@@ -15,7 +15,7 @@ PROP = "C06"
 # the same object / constant at two or three positions (all (T, R1, R2[, R3]) combinations of a small forest)
 REPEAT_KINDS = ["rep2_fact", "rep2_goal", "rep2_cfact", "rep2_fluent", "rep2_cfluent", "rep2_tfluent",
                 "rep3_fact", "rep3m_fact", "rep3_fluent"]
-CONST_KINDS = ["cforall_pre", "cforall_eff"]       # finding D30: observed in cases of their own
+CONST_KINDS = ["cforall_pre", "cforall_eff"]       # D30 (repaired): quantifiers over constants, in cases of their own
 SITE_KINDS = ["fact", "goal", "fact2", "fluent", "fluent2", "cfact", "cfluent", "tfluent", "tfact",
               "forall_pre", "forall_eff", "joint_eff"]
 
@@ -196,8 +196,6 @@ def mk_case(groups, trailing, kind, sites=False, rng=None, witness_of=None, name
             c["domain_text"] = repeat_domain_text(groups, trailing, names)
         else:
             c["domain_text"] = site_domain_text(groups, trailing, names)
-        if c["kinds"] == CONST_KINDS:
-            c["klass"] = "D30"
     else:
         c["domain_text"] = table_domain_text(groups, trailing)
     return c
